@@ -189,6 +189,45 @@ def effective_options(g: Grammar) -> Dict[str, object]:
             "other": {k: v for k, v in g.lark_kwargs.items() if k not in ("parser", "lexer", "ambiguity", "start", "priority", "keep_all_tokens", "maybe_placeholders")}}
 
 
+HANDLED_OPTIONS = {"parser", "lexer", "ambiguity", "start", "priority", "keep_all_tokens", "g_regex_flags", "maybe_placeholders"}
+HARMLESS_OPTIONS = {"debug", "propagate_positions", "source_path", "import_paths"}  # do not influence data/children of the tree
+HARMFUL_OPTIONS = {
+    "transformer": "the parser applies a transformer: the parse function no longer returns the grammar's tree",
+    "tree_class": "the parse function returns another tree class",
+    "postlex": "a post-lexer rewrites the token stream",
+    "edit_terminals": "terminals are edited after loading the grammar",
+    "lexer_callbacks": "lexer callbacks can rewrite or drop tokens",
+    "ordered_sets": "with ordered_sets=False the Earley parser's choice among ambiguous derivations depends on set iteration "
+                    "order (object addresses): the tree is no longer a function of the string and lemma L1 does not apply",
+    "use_bytes": "the parser works on bytes",
+}
+
+
+def option_findings(g: Grammar) -> List[Tuple[str, object, str]]:
+    """Lark options (as evaluated) that differ from Lark's defaults and change what the parse function returns.
+    Options this analysis has no rule for raise AnalysisError (undecided) instead of passing silently."""
+    from lark.lark import LarkOptions
+
+    out = []
+    for k, v in g.lark_kwargs.items():
+        if k in HANDLED_OPTIONS or k in HARMLESS_OPTIONS:
+            continue
+        if k in LarkOptions._defaults and LarkOptions._defaults[k] == v:  # pylint:disable=protected-access
+            continue
+        if k in HARMFUL_OPTIONS:
+            out.append((k, v, HARMFUL_OPTIONS[k]))
+        else:
+            raise AnalysisError(f"{g.module.name}: Lark option {k}={v!r} is outside what lemmas L1/L2 were established for")
+    return out
+
+
+def report_options(ctx, rule: str, g: Grammar, file: str, skip=()) -> None:
+    bad = [b for b in option_findings(g) if b[0] not in skip]
+    for k, v, why in bad:
+        ctx.ob(rule, f"{g.module.name.rsplit('.', 1)[-1]}::lark-option:{k}", False, f"Lark option {k}={v!r}: {why}", file=file, line=g.lark_call.lineno)
+    ctx.ob(rule, f"{g.module.name.rsplit('.', 1)[-1]}::lark-options", True, "")
+
+
 def token_productions(g: Grammar, classify) -> Dict[str, set]:
     """Productions with terminals mapped through `classify(terminal name) -> class name`: origin -> {tuple(symbols)}."""
     out: Dict[str, set] = {}
